@@ -15,11 +15,12 @@
    self.leaves is the in-order sequence of the leaves, as object identities).
    Model variant del_by_value = false (see Props/C07.v; for the code as it stands:
    C09_legacy_refuted).  Quantification: all histories, all capacities >= 4, all item lists.
-   OBLIGATIONS: C09_invariant_after_every_history C09_invariant_in_words C09_node_shape_in_words C09_setitem_preserves C09_delitem_preserves C09_merge_guard_never_refuses C09_bulk_load_sorted C09_bulk_load_any_list C09_bulk_equals_incremental C09_legacy_refuted C09_nonvacuous C09_nonvacuous_bulk *)
+   OBLIGATIONS: C09_invariant_after_every_history C09_invariant_in_words C09_node_shape_in_words C09_setitem_preserves C09_delitem_preserves C09_merge_guard_never_refuses C09_bulk_load_sorted C09_bulk_load_any_list C09_bulk_equals_incremental C09_legacy_refuted C09_nonvacuous C09_nonvacuous_bulk C09_ord_in_words C09_chain_visits_leaves_in_order *)
 From Coq Require Import List Arith ZArith NArith Lia Bool.
 From BPT Require Import Common.Base Common.AMap Rust.Tree Rust.InvDefs
   Py.Tree Py.Run Py.Inv Py.Spec Py.NewProofs Py.InsertProofs Py.DeleteLocal Py.DeleteProofs
   Py.BulkProofs Py.ReachFinal Py.Corollaries Py.LegacyRefuted.
+From BPT Require Import Extra.PyExtra.
 Import ListNotations.
 
 (* every map of every world reached by any history of calls (mutations of every kind:
@@ -106,3 +107,21 @@ Definition C09_nonvacuous :=
    bulk_example_sorted).
 (* from_sorted_items of 25 sorted pairs with repeats at capacity 4: 20 entries, height 2 *)
 Definition C09_nonvacuous_bulk := bulk_example.
+
+(* the ordering predicate in words: node keys strictly ascending, entries within the bounds, each child's entries below the separator to its right and at or above the separator to its left *)
+Theorem C09_ord_in_words : forall lo hi (t : ptree) c r h, ord lo hi t -> pshape c r h t ->
+  sorted_keys (pkeys t) /\
+  Forall (fun e => in_bounds lo hi (fst e)) (contents t) /\
+  match t with
+  | PLeaf _ _ _ _ _ => True
+  | PBranch _ _ ks cs => forall i ch, nth_error cs i = Some ch ->
+       forall e, In e (contents ch) ->
+         (forall sp, nth_error ks i = Some sp -> (kz (fst e) < kz sp)%Z) /\
+         (forall sp, 0 < i -> nth_error ks (i - 1) = Some sp -> (kz sp <= kz (fst e))%Z)
+  end.
+Proof. exact PyExtra.ord_in_words. Qed.
+
+(* walking next from the map's first leaf visits exactly the tree's leaves in left-to-right order and then ends *)
+Theorem C09_chain_visits_leaves_in_order : forall s, PyInv s ->
+  chain_ids (chain_fuel s) (troot s) (tleaves s) = Ok (pleaf_ids (troot s)).
+Proof. exact PyExtra.chain_visits_leaves_in_order. Qed.
